@@ -199,7 +199,7 @@ def obligations(cx):
                 cx.ob("%s.iteration%d.frame" % (tag, pi), [], blit(not r.ex.ext_writes), kind='frame', function='find_best_fit', writes=str(r.ex.ext_writes[:2]))
             # exit: the function returns the tracked best curve
             okp = len(post) == 1 and isinstance(post[0], ast.Return) and isinstance(post[0].value, ast.Name) and post[0].value.id == BEST
-            cx.ob(tag + ".returns-the-tracked-best", [], blit(okp), kind='scan', function='find_best_fit')
+            cx.ob(tag + ".returns-the-tracked-best", [], blit(okp), kind='scan', function='find_best_fit', inductive=True)        # syntactic: counts only with a native reproduction
     # lemma: min-tracking invariant  =>  SSE(result) <= SSE(every tried fit)
     Lr, Lk, Lb = var('L_result'), var('L_k'), var('L_best_before')
     cx.ob("lemma.best-of", [eq(Lr, ite(Lk < Lb, Lk, Lb))], band(Lr <= Lk, Lr <= Lb), kind='lemma', statement="after processing candidate k the tracked loss is <= its loss and <= every earlier one (induction over the tries)")
@@ -248,7 +248,7 @@ def obligations(cx):
                   statement="the VLE fit keeps the parameters of the method with the smallest error seen so far")
             cx.ob("%s.iteration%d.frame" % (tag, pi), [], blit(not r.ex.ext_writes), kind='frame', function='fit_vle')
         okp = len(post) == 1 and isinstance(post[0], ast.Return) and VBEST in ast.unparse(post[0].value)
-        cx.ob(tag + ".returns-the-tracked-best", [], blit(okp), kind='scan', function='fit_vle')
+        cx.ob(tag + ".returns-the-tracked-best", [], blit(okp), kind='scan', function='fit_vle', inductive=True)
     # the VLE objective itself: root-mean-square deviation of the UNIQUAC partial pressures from the measured ones on the supplied points
     cx.under_contract('uniquac_fitting.py:objective')
     from ..contracts import flux as CFX, thermo
